@@ -266,7 +266,7 @@ func execC17(w *c17W, x *Exec) *Outcome {
 	res := x.Bubble(cfg, func(s *simrt.Sim) func() bool {
 		var srv *simServer
 		s.Passive(func() {
-			srv, setupErr = newSimServer(x.WorkDir, simkv.NewDisk(), true)
+			srv, setupErr = newSimServer(cleanDir(x.WorkDir+"/srv"), simkv.NewDisk(), true)
 			if setupErr == nil {
 				srv.DB.AddGraph("g1")
 				srv.Srv.VerifRefreshGraphMap()
